@@ -217,7 +217,8 @@ func wrapBranch(name string, message profile.Message, branch BranchRegoResult, m
 		}
 		matchesLine := fmt.Sprintf("  %s := trace(\"%s\",\"%s\",%s,%s)", bindingResult, r.ConstraintId(), traceResultPath, r.TraceNode, r.TraceValue)
 		for _, l := range r.Rego {
-			if strings.Contains(l, "$message") {
+			// $message is a placeholder of custom rego code only: in any other constraint the text is data (a listed value)
+			if r.Constraint == "rego" && strings.Contains(l, "$message") {
 				customMessage = true
 				l = strings.ReplaceAll(l, "$message", "message")
 			}
